@@ -249,6 +249,17 @@ type vBidi struct {
 func (s *vBidi) Send(i *plugin.ConnInfo) error    { s.out <- vClone(i).(*plugin.ConnInfo); return nil } // marshalled: the peer gets a copy
 func (s *vBidi) Recv() (*plugin.ConnInfo, error) { return <-s.in, nil }
 
+// the untyped forms of the same operations (what the generated Recv/Send are built on)
+func (s *vBidi) RecvMsg(m interface{}) error {
+	i := <-s.in
+	vCopyInto(m, i)
+	return nil
+}
+func (s *vBidi) SendMsg(m interface{}) error {
+	s.out <- vClone(m).(*plugin.ConnInfo)
+	return nil
+}
+
 type vBrokerClient struct{ h2p, p2h chan *plugin.ConnInfo }
 
 func (c vBrokerClient) StartStream(ctx context.Context, opts ...grpc.CallOption) (plugin.GRPCBroker_StartStreamClient, error) {
@@ -439,5 +450,60 @@ func harnessC20brokerClose() {
 	<-done
 	<-done
 	vCover("both-returned")
+	vDone()
+}
+
+// C07 with several IDs outstanding at once in ONE direction: IDs a and c are both accepted on the plugin and dialled
+// from the host (and b the other way round); all accepts are issued before the dials, or all dials first.
+func harnessC07multi() {
+	h2p, p2h := make(chan *plugin.ConnInfo, 8), make(chan *plugin.ConnInfo, 8)
+	hs := &gRPCBrokerClientImpl{client: vBrokerClient{h2p, p2h}, send: make(chan *sendErr), recv: make(chan *plugin.ConnInfo), quit: make(chan struct{})}
+	go func() { vDaemon(); hs.StartStream() }()
+	ps := newGRPCBrokerServer()
+	go func() { vDaemon(); ps.StartStream(&vBidi{vStreamBase{vCtx{}}, p2h, h2p}) }()
+	hb := newGRPCBroker(hs, nil, UnixSocketConfig{}, nil, nil2())
+	pb := newGRPCBroker(ps, nil, UnixSocketConfig{}, nil, nil2())
+	go func() { vDaemon(); hb.Run() }()
+	go func() { vDaemon(); vSetProc(1); pb.Run() }()
+
+	a, b, c := vNondetU32("a"), vNondetU32("b"), vNondetU32("c")
+	vAssume(a != b && a != c && b != c)
+	gap := vNondetTime("gap")
+	vAssume(gap > 0 && gap < 5*sec)
+	tAcc, tDial := int64(0), gap
+	if vChoice(2) == 1 {
+		vCover("dial-first")
+		tAcc, tDial = gap, 0
+	} else {
+		vCover("accept-first")
+	}
+	var lnA, lnB, lnC net.Listener
+	var cA, cB, cC *grpc.ClientConn
+	var e [6]error
+	done := make(chan struct{}, 6)
+	go func() { vSetProc(1); vSleepUntil(tAcc); lnA, e[0] = pb.Accept(a); lnC, e[1] = pb.Accept(c); done <- struct{}{}; done <- struct{}{} }()
+	go func() { vSleepUntil(tAcc); lnB, e[2] = hb.Accept(b); done <- struct{}{} }()
+	go func() { vSleepUntil(tDial); cC, e[3] = hb.Dial(c); done <- struct{}{} }()
+	go func() { vSleepUntil(tDial); cA, e[4] = hb.Dial(a); done <- struct{}{} }()
+	go func() { vSetProc(1); vSleepUntil(tDial); cB, e[5] = pb.Dial(b); done <- struct{}{} }()
+	for i := 0; i < 6; i++ {
+		<-done
+	}
+	for i := range e {
+		vAssert(e[i] == nil, "C07: accept and dial within the pending window succeed for every outstanding ID")
+	}
+	na, errA := connG[cA].dialer("", 0)
+	nc, errC := connG[cC].dialer("", 0)
+	vSetProc(1)
+	nb, errB := connG[cB].dialer("", 0)
+	vSetProc(0)
+	vAssert(errA == nil && errB == nil && errC == nil, "C07: the first use of every dialled connection reaches a live listener")
+	gotA, _ := lnA.Accept()
+	gotB, _ := lnB.Accept()
+	gotC, _ := lnC.Accept()
+	vAssert(gotA.(*vNetConn) == na.(*vNetConn).peer, "C07: the connection dialled for ID a is served by the listener accepted for a (two IDs outstanding in one direction)")
+	vAssert(gotC.(*vNetConn) == nc.(*vNetConn).peer, "C07: the connection dialled for ID c is served by the listener accepted for c (two IDs outstanding in one direction)")
+	vAssert(gotB.(*vNetConn) == nb.(*vNetConn).peer, "C07: the connection dialled for ID b is served by the listener accepted for b")
+	vCover("routed")
 	vDone()
 }
